@@ -16,10 +16,10 @@ from . import fakeb2, fakes3, harness, vclock  # noqa: F401
 CHUNK = 16
 
 
-def wrap_reader(raw):
+def wrap_reader(raw, limit=10 ** 12):
     """the way snapshot / upload-objects wrap a source stream"""
     from replicat import utils
-    lim = utils.RateLimitedIO(10 ** 12)
+    lim = utils.RateLimitedIO(limit)
     return utils.TQDMIOReader(lim.wrap(raw), desc='x', total=None, position=0, disable=True)
 
 
@@ -48,6 +48,30 @@ class FaultyReader(io.BytesIO):
         return super().read(n)
 
 
+class FaultyFile(io.FileIO):
+    """a REAL file (fileno() works, as for upload-objects) whose reads fail by the same kind of script"""
+
+    def __init__(self, path, script):
+        super().__init__(path, 'rb')
+        self.script = {a: (p, k) for a, p, k in script}
+        self.attempt, self.reads, self.raised = 1, 0, 0
+
+    def read(self, n=-1):
+        f = self.script.get(self.attempt)
+        if f is not None and self.reads >= f[0]:
+            self.attempt += 1
+            self.reads = 0
+            self.raised += 1
+            raise OSError('fault script: read failed')
+        self.reads += 1
+        return super().read(n)
+
+    def readinto(self, b):
+        data = self.read(len(b))
+        b[:len(data)] = data
+        return len(data)
+
+
 class FaultyWriter(io.BytesIO):
     def __init__(self, script):
         super().__init__()
@@ -72,7 +96,7 @@ async def call(fn, *a):
     return r
 
 
-def run_local(op, script, payload, root, persistent=False):
+def run_local(op, script, payload, root, persistent=False, realfile=False, limit=10 ** 12, chunk=None):
     """-> outcome dict"""
     from replicat.backends.local import Local
     be = Local(str(root))
@@ -86,7 +110,13 @@ def run_local(op, script, payload, root, persistent=False):
                 # positions 0..2: the read of that stream chunk fails; position 3 ("after the last chunk"): the atomic replace fails
                 rs = [(a, p_, k_) for a, p_, k_ in script if p_ < 3]
                 renames = {a for a, p_, k_ in script if p_ >= 3}
-                src = FaultyReader(payload, rs if not persistent else [(a, 0, 'io') for a in range(1, 200)])
+                if realfile:
+                    # the source is a real file behind the rate-limit wrapper with a finite limit, as in `replicat upload --rate-limit`
+                    sp = Path(str(root) + '.source-file.bin')        # next to, not inside, the backend directory
+                    sp.write_bytes(payload)
+                    src = FaultyFile(str(sp), [])       # the faults of this variant are on the destination side (see flaky_copy)
+                else:
+                    src = FaultyReader(payload, rs if not persistent else [(a, 0, 'io') for a in range(1, 200)])
                 real = Path.replace
                 state = {'calls': 0}
 
@@ -98,10 +128,29 @@ def run_local(op, script, payload, root, persistent=False):
                         raise OSError('fault script: replace failed')
                     return real(self, target)
                 Path.replace = flaky
+                import shutil
+                real_copy = shutil.copyfileobj
+                copies = {'n': 0}
+
+                def flaky_copy(fsrc, fdst, length=0):
+                    # realfile variant: the DESTINATION side fails (EIO while writing the temporary) after a few pieces of the attempt
+                    copies['n'] += 1
+                    want = {a: p_ for a, p_, k_ in script}.get(copies['n']) if realfile else None
+                    if want is None:
+                        return real_copy(fsrc, fdst, length)
+                    for _ in range(want + 1):
+                        fdst.write(fsrc.read(length))
+                    state['calls'] += 1
+                    raise OSError('fault script: write to the temporary failed')
+                if realfile:
+                    shutil.copyfileobj = flaky_copy
                 try:
-                    be.upload_stream(name, wrap_reader(src), len(payload), CHUNK)
+                    be.upload_stream(name, wrap_reader(src, limit), len(payload), chunk or CHUNK)
                 finally:
                     Path.replace = real
+                    shutil.copyfileobj = real_copy
+                    if realfile:
+                        src.close()
                 out['calls'] = src.raised + state['calls'] + 1
             elif op == 'download_stream':
                 be.upload(name, payload)
